@@ -167,14 +167,14 @@ pub fn run(ctx: &mut Ctx) {
     let days = selected_days(w);
     ctx.bound("every_second_days", json!(days.len()));
     let days = &days;
-    ctx.sweep("every_second_of_selected_days", "every second (x µs {0, 1, 999999}) of the selected days x 12 units on Timestamp, whole seconds on OracleDate", days.len() as u64 * 86_400, 4096, |range, acc| {
+    ctx.sweep("every_second_of_selected_days", "every second (x µs {0, 1, 123456, 499999, 500000, 654321, 999999}) of the selected days x 12 units on Timestamp, whole seconds on OracleDate", days.len() as u64 * 86_400, 4096, |range, acc| {
         for idx in range {
             let n = days[(idx / 86_400) as usize];
             let s = (idx % 86_400) as i64;
             let c = cal.at(n);
             let dr = day_ref(w, n);
             let date = Date::try_from_days(n).unwrap();
-            for us in [0i64, 1, 999_999] {
+            for us in [0i64, 1, 123_456, 499_999, 500_000, 654_321, 999_999] {
                 let t = s * US_SEC + us;
                 let ts = Timestamp::new(date, Time::try_from_usecs(t).unwrap());
                 for u in 0..12 {
